@@ -5,11 +5,19 @@ C49 — Parallel map processes each element exactly once.  Property theorems (no
 "Parmap applies the function to every element of the vector exactly once per apply, for any number of worker threads and
 any synchronization mode."
 
-Part 1 (tie to the source): the micro-op programs GENERATED from src/xbt/parmap.hpp (Gen.lean), with the stuttering
-micro-ops removed, are exactly the programs the transition system of Model.lean executes — for apply, work, next,
-worker_main and for each of the three synchronisation modes (so one protocol model covers posix, futex and busy_wait).
-Part 2: theorems about that transition system for EVERY number of workers, EVERY vector length, EVERY schedule (list of
-events, including any number of successive applies).  Sequentially consistent atomics; see Model.lean for what is outside.
+Part 1 (tie to the source, syntactic): the micro-op programs GENERATED from src/xbt/parmap.hpp (Gen.lean), with the
+stuttering micro-ops removed, are the lists `expected*` of Model.lean — for apply, work, next, worker_main and for each of
+the three synchronisation modes.
+Part 2: theorems about the hand-written transition system `step`/`run` of Model.lean for EVERY number of workers, EVERY
+vector length, EVERY schedule (list of events, including any number of successive applies).
+Part 3 (tie to the source, semantic): a GENERIC INTERPRETER of micro-op programs (Interp.lean: call stacks, structured loops,
+locals, shared variables; it knows nothing about the protocol) runs the GENERATED programs; `gen_forward_simulation` /
+`gen_refines_model` prove that the hand-written system of Part 2 is exactly the abstraction of that interpretation (program
+point of a thread = its next micro-op touching a shared variable), for the three modes; `gen_each_index_at_most_once`,
+`gen_index_handed_to_one_thread`, `gen_apply_returns_after_all_done`, `gen_each_index_exactly_once`,
+`gen_no_leak_between_rounds` restate the theorems of Part 2 on the interpreter states themselves.  So "the step function
+implements the generated lists" is no longer by inspection.
+Sequentially consistent atomics, waits = re-reads (safety only); see Model.lean / Interp.lean for what is outside.
 -/
 namespace SgVerif.C49
 
